@@ -92,6 +92,8 @@ type Exec struct {
 	unwind    int
 	stepLimit int64
 	casemax   int
+	feasTimeout   int
+	assertTimeout int
 	inInit    bool
 	trace     bool
 	harness   string
